@@ -535,9 +535,30 @@ func (s *Sim) BuildForge(f *Forge) *specqbft.SignedMessage {
 			} else {
 				rcj = s.poolMsgs(specqbft.RoundChangeMsgType, round, nil)
 			}
+			if f.Just == "confuse" {
+				// type confusion: only unprepared round-changes, padded with correct operators' messages of OTHER types
+				// (prepare / commit / proposal) for this round standing in for round-changes
+				var keep []*specqbft.SignedMessage
+				for _, m := range rcj {
+					if !m.Message.RoundChangePrepared() {
+						keep = append(keep, m)
+					}
+				}
+				rcj = keep
+			}
 			have := map[spectypes.OperatorID]bool{}
 			for _, m := range rcj {
 				have[m.Signers[0]] = true
+			}
+			if f.Just == "confuse" {
+				for _, t := range []specqbft.MessageType{specqbft.PrepareMsgType, specqbft.CommitMsgType} {
+					for _, m := range s.poolMsgs(t, round, nil) {
+						if !have[m.Signers[0]] && !s.IsByz[m.Signers[0]] && len(rcj) < s.Quorum {
+							have[m.Signers[0]] = true
+							rcj = append(rcj, m)
+						}
+					}
+				}
 			}
 			for _, b := range s.byzIDs() { // Byzantine operators add their own (unprepared) round changes
 				if !have[b] {
@@ -551,6 +572,25 @@ func (s *Sim) BuildForge(f *Forge) *specqbft.SignedMessage {
 			for _, m := range rcj {
 				if m.Message.RoundChangePrepared() && (hp == nil || m.Message.DataRound > hp.Message.DataRound) {
 					hp = m
+				}
+			}
+			if f.Just == "lowest" || f.Just == "lowest-first" {
+				// an outdated lock passed off as the highest prepared one: justify with the round-change of the LOWEST
+				// prepared round (placed last / first among the round-changes) and its prepares
+				hp = nil
+				hi := -1
+				for i, m := range rcj {
+					if m.Message.RoundChangePrepared() && (hp == nil || m.Message.DataRound < hp.Message.DataRound) {
+						hp, hi = m, i
+					}
+				}
+				if hp != nil {
+					rest := append(append([]*specqbft.SignedMessage{}, rcj[:hi]...), rcj[hi+1:]...)
+					if f.Just == "lowest" {
+						rcj = append(rest, hp)
+					} else {
+						rcj = append([]*specqbft.SignedMessage{hp}, rest...)
+					}
 				}
 			}
 			if hp != nil {
